@@ -59,7 +59,7 @@ PROPS = {
             {"run": rules_path.run_argdeviant, "floor": 5, "scope": "anchor-dirs"},
             {"run": rules_table.run_typemap, "floor": 120, "scope": "anchors"},
             {"run": rules_table.run_regrange, "floor": 6},
-            {"run": rules_table.run_countfail, "floor": 4},
+            {"run": rules_table.run_countfail, "floor": 3},
             {"run": rules_path.run_lazyorder, "floor": 2, "use_anchor_files": True},
             {"run": rules_table.run_memcpysize, "floor": 3, "ctx": {"files": ["mptcore/types/type_traits.c"]}},
         ],
